@@ -175,8 +175,13 @@ class BinarySensor(Device):
 
     def _process_reset_after(self) -> None:
         """Create Task for resetting state if 'reset_after' is configured."""
-        if self._reset_task is not None and self.state:
+        if self._reset_task is None:
+            return
+        if self.state:
             self.xknx.task_registry.start_task(self._reset_task)
+        else:
+            # already 'off' - nothing is left to reset
+            self._reset_task.cancel()
 
     def is_on(self) -> bool:
         """Return if binary sensor is 'on'."""
